@@ -272,19 +272,27 @@ func (r *rig) submitRaw(entry, src string) harness.RunResult {
 	switch entry {
 	case "eval":
 		return harness.Guard(func() (otto.Value, error) { return r.vm.Eval(src) })
-	case "call", "value-call":
+	case "call", "value-call", "object-call":
 		inject, fail := r.injectAt, r.hostFail
 		r.injectAt, r.hostFail = 0, 0
-		def := harness.Run(r.vm, "function __main() {\n"+src+"\n}")
+		def := harness.Run(r.vm, "function __main() {\n"+src+"\n}; var __holder = {m: __main}")
 		r.injectAt, r.hostFail = inject, fail
 		if def.Err != nil || def.Panicked {
 			return def
 		}
-		r.polls, r.lenAt = 0, []int{0}
-		if entry == "call" {
-			return harness.Guard(func() (otto.Value, error) { return r.vm.Call("__main", nil) })
-		}
 		fn, _ := r.vm.Get("__main")
+		holder, _ := r.vm.Get("__holder")
+		// the host installs its interrupt channel only now, after the last Run (as it would around a callback):
+		// the interpreter has to poll the channel the runtime has at the time, not one it remembered earlier
+		r.vm.Interrupt = make(chan func(), 1)
+		r.vm.Interrupt <- r.fire
+		r.polls, r.lenAt = 0, []int{0}
+		switch entry {
+		case "call":
+			return harness.Guard(func() (otto.Value, error) { return r.vm.Call("__main", nil) })
+		case "object-call":
+			return harness.Guard(func() (otto.Value, error) { return holder.Object().Call("m") })
+		}
 		return harness.Guard(func() (otto.Value, error) { return fn.Call(otto.UndefinedValue()) })
 	}
 	return harness.Run(r.vm, src)
@@ -323,6 +331,14 @@ func checkInject(c injectCase) harness.Outcome {
 		return out
 	}
 	n := ref.polls
+	if n == 0 && c.Entry != "run" {
+		// no polling point through this entry: only acceptable if the program has none under Run either
+		viaRun := newRig()
+		if _, w := viaRun.submit("run", c.Src); !w && viaRun.polls > 0 {
+			out.Fail = fmt.Sprintf("submitted through entry %s the program reaches no interrupt polling point, through Run it reaches %d: an interrupt cannot be delivered through this entry\n%s", c.Entry, viaRun.polls, c.Src)
+			return out
+		}
+	}
 	if n == 0 {
 		out.Discard = "no polling point"
 		return out
@@ -465,7 +481,7 @@ var templates = []struct{ family, src string }{
 
 var injectFacet = harness.Register(&harness.Facet[injectCase]{
 	Name:     "interrupt-at-every-step",
-	Rule:     "rapid: a program (templates covering empty-bodied loops of every form, bounded loops, recursion, callbacks inside sort/forEach/map/reduce/filter/replace/JSON/getters/valueOf, script code entered from Go inside host functions and console.log (Value.String/ToString/ToFloat/ToInteger/Export/MarshalJSON/Call, Object.Get/Set, Otto.Call on objects with script toString/valueOf/getters/setters/toJSON), with, labels, try/finally, eval; or a program from the semantic generator) is submitted through one of the public entry points (Run, Eval, Otto.Call, Value.Call) and first run with a counting interrupt function that records the host-call trace length at every polling step; then for EVERY step k (all when ≤120 polls, else first/last 25 plus drawn positions) a fresh runtime runs it with an interrupt function that panics at step k. Oracle: Run panics with exactly that value, the trace equals the reference prefix recorded at k, scope depth and pending labels are 0, a global written before each host call still has its value, and a fixed battery (labels, try/finally, with, recursion, switch, sort) gives its normal result on the same runtime. Non-trivial = the program makes host calls and contains a function or comes from a template; distinct by (program, picks)",
+	Rule:     "rapid: a program (templates covering empty-bodied loops of every form, bounded loops, recursion, callbacks inside sort/forEach/map/reduce/filter/replace/JSON/getters/valueOf, script code entered from Go inside host functions and console.log (Value.String/ToString/ToFloat/ToInteger/Export/MarshalJSON/Call, Object.Get/Set, Otto.Call on objects with script toString/valueOf/getters/setters/toJSON), with, labels, try/finally, eval; or a program from the semantic generator) is submitted through one of the public entry points (Run, Eval, Otto.Call, Value.Call, Object.Call — for the call entries the interrupt channel is installed after the last Run, and a program that polls under Run must poll through them too) and first run with a counting interrupt function that records the host-call trace length at every polling step; then for EVERY step k (all when ≤120 polls, else first/last 25 plus drawn positions) a fresh runtime runs it with an interrupt function that panics at step k. Oracle: Run panics with exactly that value, the trace equals the reference prefix recorded at k, scope depth and pending labels are 0, a global written before each host call still has its value, and a fixed battery (labels, try/finally, with, recursion, switch, sort) gives its normal result on the same runtime. Non-trivial = the program makes host calls and contains a function or comes from a template; distinct by (program, picks)",
 	Quick:    260,
 	Thorough: 2500,
 	Gen: func(t *rapid.T) injectCase {
@@ -478,7 +494,7 @@ var injectFacet = harness.Register(&harness.Facet[injectCase]{
 			c.Family = tpl.family
 			c.Src = strings.ReplaceAll(tpl.src, "%N", strconv.Itoa(rapid.IntRange(0, 7).Draw(t, "n")))
 		}
-		c.Entry = rapid.SampledFrom([]string{"run", "run", "run", "eval", "call", "value-call"}).Draw(t, "entry")
+		c.Entry = rapid.SampledFrom([]string{"run", "run", "run", "eval", "call", "value-call", "object-call"}).Draw(t, "entry")
 		for i := 0; i < 30; i++ {
 			c.Picks = append(c.Picks, rapid.IntRange(0, 1000).Draw(t, "pick"))
 		}
@@ -637,12 +653,28 @@ var sweepForms = map[string]string{
 	"valueof":       `function d(n){ return n<=1 ? 1 : 1+({valueOf:function(){ return d(n-1) }}) }`,
 	"tojson":        `function d(n){ return n<=1 ? 1 : 1+JSON.parse(JSON.stringify({toJSON:function(){ return d(n-1) }})) }`,
 	"new-function":  `var d = new Function("n", "return n<=1 ? 1 : 1+d(n-1)")`,
+	// forms whose frame count is evident, checked against the exact threshold (see sweepExact)
+	"plain":        `function d(n){ return n<=1 ? 1 : 1+d(n-1) }`,
+	"native-leaf":  `function d(n){ return n<=1 ? Math.abs(-1) : 1+d(n-1) }`,
+	"host-leaf":    `function d(n){ return n<=1 ? host(1) : 1+d(n-1) }`,
+	"foreach-leaf": `function d(n){ if (n<=1) { var r=0; [1].forEach(function(x){ r=x }); return r } return 1+d(n-1) }`,
 	"getter-proto":  `function P(){} Object.defineProperty(P.prototype, "v", {get:function(){ var k=this.n; if(k<=1) return 1; var q=new P(); q.n=k-1; return 1+q.v }}); function d(n){ var p=new P(); p.n=n; return p.v }`,
+}
+
+// sweepExact gives, for the forms where it is evident, the number of frames a chain of n levels needs on top of
+// the global code: one per script function, one per native or host function, one per callback. "The stack depth
+// limit admits exactly the configured nesting": with limit L the chain runs iff that number is at most L-1 (the
+// global code is the first level), and a host function at the leaf is not entered when the chain is refused.
+var sweepExact = map[string]func(n int) int{
+	"plain":        func(n int) int { return n },
+	"native-leaf":  func(n int) int { return n + 1 },
+	"host-leaf":    func(n int) int { return n + 1 },
+	"foreach-leaf": func(n int) int { return n + 2 },
 }
 
 var sweepFacet = harness.Register(&harness.Facet[sweepCase]{
 	Name:     "stack-depth-sweep",
-	Rule:     "rapid: a stack depth limit L in 2..40 and a recursion form whose engine-frame cost per level is implementation business (indirect and direct eval, call, apply, bind, forEach/sort/replace callbacks, valueOf coercion, toJSON, new Function, prototype getter); ALL depths 1..L+4 are run on one runtime. Oracle: every run either completes with the right count or ends in a RangeError the script catches (never a Go panic, never another error); the outcome is monotone in the depth (once refused, always refused) and a chain of more than L levels is always refused; after every run the runtime is at rest (scope depth 0, no pending labels) and a battery run under a generous limit behaves normally. Non-trivial = every case; distinct by (form, L)",
+	Rule:     "rapid: a stack depth limit L in 2..40 and a recursion form whose engine-frame cost per level is implementation business (indirect and direct eval, call, apply, bind, forEach/sort/replace callbacks, valueOf coercion, toJSON, new Function, prototype getter; plus four forms whose frame count is evident — plain recursion, a native, a host function or a forEach callback at the leaf — for which the exact threshold is asserted: a chain needing f frames above the global code runs iff f <= L-1, and a refused chain never enters the host function at its leaf); ALL depths 1..L+4 are run on one runtime. Oracle: every run either completes with the right count or ends in a RangeError the script catches (never a Go panic, never another error); the outcome is monotone in the depth (once refused, always refused) and a chain of more than L levels is always refused; after every run the runtime is at rest (scope depth 0, no pending labels) and a battery run under a generous limit behaves normally. Non-trivial = every case; distinct by (form, L)",
 	Quick:    250,
 	Thorough: 2500,
 	Gen: func(t *rapid.T) sweepCase {
@@ -657,6 +689,8 @@ var sweepFacet = harness.Register(&harness.Facet[sweepCase]{
 		out := harness.Outcome{Nontrivial: true, Classes: []string{"form:" + c.Form}}
 		vm := otto.New()
 		vm.SetStackDepthLimit(300)
+		hostCalls := 0
+		vm.Set("host", func(call otto.FunctionCall) otto.Value { hostCalls++; return call.Argument(0) })
 		if r := harness.Run(vm, sweepForms[c.Form]+"; function __battery() { return "+battery+" }"); r.Panicked || r.Err != nil {
 			out.Fail = "definition failed: " + r.Describe()
 			return out
@@ -664,8 +698,20 @@ var sweepFacet = harness.Register(&harness.Facet[sweepCase]{
 		refused := false
 		for n := 1; n <= c.Limit+4; n++ {
 			vm.SetStackDepthLimit(c.Limit)
+			hostBefore := hostCalls
 			res := harness.Run(vm, fmt.Sprintf(`var __r; try { __r = "ok:" + d(%d) } catch (e) { __r = "caught:" + e.name + ":" + (e instanceof RangeError) } __r`, n))
 			got := res.Describe()
+			if cost, ok := sweepExact[c.Form]; ok && !res.Panicked {
+				admitted := res.Err == nil && got == fmt.Sprintf("ok:%d", n)
+				if want := cost(n) <= c.Limit-1; admitted != want {
+					out.Fail = fmt.Sprintf("limit %d, form %s, depth %d needs %d frames above the global code: admitted=%v, want %v (the limit admits exactly the configured nesting); outcome %s", c.Limit, c.Form, n, cost(n), admitted, want, got)
+					return out
+				}
+				if !admitted && hostCalls != hostBefore {
+					out.Fail = fmt.Sprintf("limit %d, form %s, depth %d: the chain was refused but the host function at its leaf was entered", c.Limit, c.Form, n)
+					return out
+				}
+			}
 			switch {
 			case res.Panicked:
 				out.Fail = fmt.Sprintf("limit %d, form %s, depth %d: a Go panic crossed Run: %v", c.Limit, c.Form, n, res.Panic)
